@@ -10,7 +10,7 @@ from vlib import mw, spec
 
 ID = "C02"
 LEVEL = "exploration"
-RULE = ("field-aware mutation (0..3 mutations: delete / replace leaf by type-directed pool value "
+RULE = ("(i) complete enumeration of single mutations (every node of every documented request x deleted / every value of its type-directed pool / cross-type pool), on a fresh manager and again while a reconnection is pending after a link failure; (ii) field-aware mutation (0..3 mutations: delete / replace leaf by type-directed pool value "
         "/ add key) of the documented request templates of all 10 commands in v5 and v1 mode, "
         "plus arbitrary JSON values; oracle = verdict set computed by a classifier transcribed "
         "from docs/protocol*.md; non-trivial = JSON object with >= 1 mutation whose "
